@@ -38,7 +38,8 @@ def entryLine (entry : String → Array Int → Option (Bool × Res × (Res → 
           -- certificate-style specifications (Bezout cofactors, …): both must pass the checker
           let sg (x : Int) : Int := if x < 0 then -1 else if x = 0 then 0 else 1
           let modelOk :=
-            if mode == "exact" then model == ir
+            if mode == "speconly" then true     -- body outside the translator's dialect: implementation vs specification only
+            else if mode == "exact" then model == ir
             else if mode == "sign" then model.exc == ir.exc && model.outs == ir.outs && sg model.ret == sg ir.ret
             else if mode == "truthy" then model.exc == ir.exc && model.outs == ir.outs && ((model.ret == 0) == (ir.ret == 0))
             else modelSpecOk && specOk
